@@ -18,43 +18,6 @@ import (
 	"time"
 )
 
-var (
-	vhSelNested bool
-	vhSelB      func()
-	vhSelSeenA  []reflect.Value // channels A handed to reflect.Select
-)
-
-// vhSelectModel stands for reflect.Select: before A's select proceeds, B runs.
-func vhSelectModel(cases []reflect.SelectCase) (int, reflect.Value, bool) {
-	if !vhSelNested {
-		vhSelNested = true
-		if vhSelB != nil {
-			vhSelB()
-		}
-		vhSelSeenA = nil
-		for _, c := range cases {
-			vhSelSeenA = append(vhSelSeenA, c.Chan)
-		}
-	}
-	return 0, reflect.Value{}, false
-}
-
-// select { case <-c0: ; case <-c1: } with the channels in frame slots 0 and 1
-func vhSelectNode(i *Interpreter) *node {
-	n := &node{interp: i, kind: selectStmt}
-	for k := 0; k < 2; k++ {
-		ch := &node{interp: i, kind: identExpr, findex: k, typ: &itype{cat: chanT}}
-		rcv := &node{interp: i, kind: unaryExpr, action: aRecv, child: []*node{ch}}
-		ch.anc = rcv
-		st := &node{interp: i, kind: exprStmt, child: []*node{rcv}}
-		rcv.anc = st
-		cl := &node{interp: i, kind: commClause, child: []*node{st}, anc: n}
-		st.anc = cl
-		n.child = append(n.child, cl)
-	}
-	return n
-}
-
 func vhChanFrame(i *Interpreter) (*frame, []reflect.Value) {
 	f := newFrame(i.frame, 2, i.runid())
 	chans := []reflect.Value{reflect.ValueOf(make(chan int, 1)), reflect.ValueOf(make(chan int, 1))}
@@ -66,7 +29,9 @@ func vhChanFrame(i *Interpreter) (*frame, []reflect.Value) {
 func vh_C08_select() {
 	vhResetClock()
 	i := vhNewInterp()
-	n := vhSelectNode(i)
+	vhBlockOp = 5
+	vhDoneChan = reflect.ValueOf(i.done)
+	n := vhSelect2(i)
 	_select(n)
 	fA, chA := vhChanFrame(i)
 	fB, _ := vhChanFrame(i)
@@ -96,19 +61,147 @@ func vh_C08_select() {
 		wg.Wait()
 		return
 	}
-	vhSelNested, vhSelSeenA = false, nil
-	vhSelB = func() { n.exec(fB) }
+	vhSelSeen = nil
+	vhSelHook = func() { n.exec(fB) }
 	vReach("C08.select")
 	vWatchCaptured(n.exec)
 	n.exec(fA)
 	vWatchEnd()
 	vAssert("C08.readonly._select", vEventCount("capwrite:") == 0)
-	ok := len(vhSelSeenA) >= 2 && vhSelSeenA[0] == chA[0] && vhSelSeenA[1] == chA[1]
+	ok := len(vhSelSeen) >= 2 && vhSelSeen[0] == chA[0] && vhSelSeen[1] == chA[1]
 	vAssert("C08.crosstalk._select", ok)
+}
+
+// Every channel statement (with and without a context) and the call statement:
+// two activations of the same closure, B at A's preemption point (the
+// reflect.Select of the cancellable forms); nothing reachable from the
+// captured variables may be written.
+var vhCancelMode = 1
+
+func vh_C08_chanop() {
+	vhResetClock()
+	vhStopAt = -1
+	i := vhNewInterp()
+	i.cancelChan = vhCancelMode == 1
+	vhSelCalls, vhSelDoneAt0, vhSelChosen = 0, true, -1
+	n, fA := vhBlockNode(i)
+	_, fB := vhBlockNode(i) // a second frame with its own channels (its node is not used)
+	if !vSymbolic() {
+		// native replay under the race detector: two goroutines execute the statement
+		// on their own frames and channels; a peer goroutine per frame keeps the
+		// channel operation completing (with pauses, so that the blocking path is taken)
+		stop := time.AfterFunc(3*time.Second, func() { close(i.done) })
+		defer stop.Stop()
+		var wg sync.WaitGroup
+		for _, f := range []*frame{fA, fB} {
+			f := f
+			quit := make(chan struct{})
+			peer := func(ch reflect.Value) {
+				for k := 0; ; k++ {
+					select {
+					case <-quit:
+						return
+					default:
+					}
+					if vhBlockOp == 3 {
+						ch.TryRecv()
+					} else {
+						ch.TrySend(reflect.ValueOf(true))
+					}
+					if k%3 == 0 {
+						time.Sleep(20 * time.Microsecond)
+					}
+				}
+			}
+			go peer(f.data[0])
+			if vhBlockOp == 5 {
+				go peer(f.data[1])
+			}
+			wg.Add(1)
+			go func() {
+				defer wg.Done()
+				defer close(quit)
+				for k := 0; k < 400; k++ {
+					if n.exec(f) == nil && vhBlockOp != 4 {
+						select {
+						case <-i.done:
+							return
+						default:
+						}
+					}
+				}
+			}()
+		}
+		wg.Wait()
+		return
+	}
+	vhSelHook = func() { n.exec(fB) }
+	vReach("C08.chanop")
+	vWatchCaptured(n.exec)
+	n.exec(fA)
+	vWatchEnd()
+	vAssert("C08.readonly.chanop", vEventCount("capwrite:") == 0)
+}
+
+// f(args...) executed by two goroutines: the call closure keeps nothing
+// between executions (variadic and plain callees).
+var vhVariadic = 0
+
+func vh_C08_call() {
+	vhResetClock()
+	vhStopAt = -1
+	i := vhNewInterp()
+	intT := &itype{cat: intT, rtype: reflect.TypeOf(0)}
+	sliceT := &itype{cat: sliceT, val: intT, rtype: reflect.TypeOf([]int{})}
+	body := &node{interp: i}
+	body.start = body
+	body.exec = func(f *frame) bltn { vhSteps++; return nil }
+	blk := &node{interp: i, start: body}
+	argT := intT
+	def := &node{interp: i, kind: funcDecl, typ: &itype{cat: funcT, arg: []*itype{argT}, rtype: reflect.TypeOf(func(int) {})}, types: []reflect.Type{intT.rtype}}
+	if vhVariadic == 1 {
+		def.typ = &itype{cat: funcT, arg: []*itype{{cat: variadicT, val: intT, rtype: sliceT.rtype}}, rtype: reflect.TypeOf(func(...int) {})}
+		def.types = []reflect.Type{sliceT.rtype}
+	}
+	def.child = []*node{{interp: i}, {interp: i, ident: "p"}, {interp: i}, blk}
+	def.val = def
+	c0 := &node{interp: i, kind: identExpr, findex: notInFrame, val: def, typ: def.typ}
+	x := &node{interp: i, kind: identExpr, findex: 0, typ: intT}
+	stmt := &node{interp: i, kind: exprStmt}
+	n := &node{interp: i, kind: callExpr, anc: stmt, child: []*node{c0, x}, typ: def.typ}
+	c0.anc, x.anc = n, n
+	call(n)
+	mk := func(v int64) *frame {
+		f := newFrame(i.frame, 1, i.runid())
+		f.data[0] = reflect.New(intT.rtype).Elem()
+		f.data[0].SetInt(v)
+		return f
+	}
+	if !vSymbolic() {
+		var wg sync.WaitGroup
+		for g := 0; g < 4; g++ {
+			wg.Add(1)
+			go func(g int) {
+				defer wg.Done()
+				f := mk(int64(g))
+				for k := 0; k < 500; k++ {
+					n.exec(f)
+				}
+			}(g)
+		}
+		wg.Wait()
+		return
+	}
+	fA := mk(vNondetInt64("a"))
+	vReach("C08.call")
+	vWatchCaptured(n.exec)
+	n.exec(fA)
+	vWatchEnd()
+	vAssert("C08.readonly.call", vEventCount("capwrite:") == 0)
 }
 
 var vhScenarios = map[string]func(map[string]string) bool{}
 
-var vhRegistry = map[string]func(){"vh_C08_select": vh_C08_select}
+var vhRegistry = map[string]func(){"vh_C08_select": vh_C08_select, "vh_C08_chanop": vh_C08_chanop, "vh_C08_call": vh_C08_call}
 
-var vhIntVars = map[string]*int{"vhMaxSteps": &vhMaxSteps}
+var vhIntVars = map[string]*int{"vhMaxSteps": &vhMaxSteps, "vhBlockOp": &vhBlockOp, "vhCancelMode": &vhCancelMode, "vhVariadic": &vhVariadic}
